@@ -50,7 +50,7 @@ DP_PATH_PREFIXES = ('exact:',)
 
 def clause_filter(c, v, e):
     # C01 is about the exact post-state of specified data-processing encodings
-    return v['path'].startswith('exact') and c not in ('hosterror', 'range', 'confine', 'nop-on-condfail')
+    return v['path'].startswith('exact') and c not in ('range', 'confine', 'nop-on-condfail')
 
 
 def run(ctx):
